@@ -816,16 +816,18 @@ def c03_programs(tier, sd):
     for sub_rand in (True, False):
         top = {"name": "Top", "fields": [fld("a", ("u", 8)), fld("b", ("s", 8)), fld("c", ("u", 8), False), fld("d", ("u", 4)),
                                          fld("e", ("s", 4), False), fld("w", ("u", 16)),
+                                         fld("e2", ("u", 4), False), fld("e3", ("u", 4), False), ["rl2", "rl", [lit(3), ["rng", lit(8), lit(12)]]],
                                          ["s", "obj", "Sub", sub_rand], ["rl", "rl", [["rng", lit(-5), lit(5)], lit(100)]],
                                          ["m", "list", ["u", 8], 2, False, False], ["l", "list", ["u", 8], 2, True, False]],
                "blocks": [["cb0", "c", [E(["<", a, c]), E(["in_rl", b, ["rl"]]), E(["!=", d, ["ps", F("s", "x"), 3, 0]]),
                                         E([">=", F("w"), F("e")]), E(["!=", F("w"), b])]],
+                          ["cb3", "c", [E(["notin_rl", d, ["rl2"]]), ["unique", [d, F("e2"), F("e3")]]]],
                           ["cb1", "c", [["if", [[[">", c, lit(100)], [E(["in_list", a, ["m"]])]]], [E([">", F("s", "z"), ["-", b, lit(3)]])]]]],
                           ["cb2", "c", [["foreach", ["l"], "i", [["if", [[[">", c, lit(100)], [E(["<", ["it", "i"], lit(10)])]]],
                                                                   [E([">", ["it", "i"], lit(200)])]]]]]]]}
         pr = {"enums": {}, "classes": [sub, top]}
         init = [["set", ["top", "c"], 50], ["set", ["top", "s", "y"], 200], ["set", ["top", "m", 0], 7], ["set", ["top", "m", 1], 120],
-                ["set", ["top", "e"], -3]]
+                ["set", ["top", "e"], -3], ["set", ["top", "e2"], 1], ["set", ["top", "e3"], 2]]
         edits = [
             ["set", ["top", "c"], 200], ["set", ["top", "c"], 1], ["set", ["top", "c"], 0], ["set", ["top", "a"], 33], ["set", ["top", "b"], -4],
             ["rand_mode", ["top", "a"], False], ["rand_mode", ["top", "a"], True], ["rand_mode", ["top", "b"], False], ["rand_mode", ["top", "d"], False],
@@ -839,6 +841,11 @@ def c03_programs(tier, sd):
             ["cmode", ["top"], "cb1", False], ["cmode", ["top"], "cb1", True],
             ["set", ["top", "e"], -8], ["set", ["top", "e"], 7], ["set", ["top", "e"], -1], ["set", ["top", "b"], -100],
             ["set", ["top", "w"], 65000], ["rand_mode", ["top", "w"], False],
+            ["rl_append", ["top", "rl2"], lit(5)], ["rl_append", ["top", "rl2"], ["rng", lit(0), lit(2)]],
+            ["seq", [["rl_clear", ["top", "rl2"]], ["rl_append", ["top", "rl2"], ["rng", lit(0), lit(13)]]]],
+            ["seq", [["rl_clear", ["top", "rl2"]], ["rl_extend", ["top", "rl2"], [lit(15), ["rng", lit(4), lit(6)]]]]],
+            ["set", ["top", "e2"], 2], ["set", ["top", "e3"], 1], ["seq", [["set", ["top", "e2"], 9], ["set", ["top", "e3"], 9]]], ["set", ["top", "e2"], 14],
+            ["seq", [["rand_mode", ["top", "d"], False], ["set", ["top", "d"], 1]]],
         ]
         calls = [["randomize", ["top"]], ["randomize_with", ["top"], [E([">", a, lit(2)])]], ["vsc_randomize", [["top"]]],
                  ["vsc_randomize", [["top", "a"], ["top", "d"]]], ["vsc_randomize", [["top", "c"]]], ["vsc_randomize", [["top", "s"]]],
@@ -874,6 +881,15 @@ def c03_programs(tier, sd):
                 ["vsc_randomize_with", [["f1"]], [E(["<", F("f1"), F("f0")])]]]):
         out.append({"tag": "standalone", "desc": "standalone fields %s" % (cl,), "prog": pr, "world": world,
                     "ops": [["set", ["f0"], 9], ["set", ["f1"], -7], ["set", ["f2"], 2], cl, ["set", ["f1"], 100], cl]})
+    # free-standing lists as the root of a call: a fixed-size list keeps its length, elements of a list declared non-random are
+    # random only when ... they are not: below the root the declaration decides
+    for lrand in (True, False):
+        world = [["lst", "list", ["u", 8], 4, lrand, False], ["x", "u", 8, True]]
+        for cl in ([["vsc_randomize", [["lst"]]], ["vsc_randomize", [["lst"], ["x"]]],
+                    ["vsc_randomize_with", [["lst"], ["x"]], [E(["==", F("x"), ["size", ["lst"]]]), E(["<", F("lst", 0), F("lst", 1)])]],
+                    ["vsc_randomize_with", [["x"]], [E([">", F("x"), F("lst", 2)])]]]):
+            out.append({"tag": "standalone_list", "desc": "free-standing list (rand=%s) %s" % (lrand, cl), "prog": pr, "world": world,
+                        "ops": [["set", ["lst", 0], 3], ["set", ["lst", 1], 9], ["set", ["lst", 2], 200], ["set", ["lst", 3], 7], cl, cl, ["set", ["lst", 2], 100], cl]})
     return out
 
 
